@@ -187,6 +187,11 @@ def case_sigs(cid, seed, count, weak):
     ws = [G.signature(cid2, d2, k, 'c07-w-%d' % i)
           for i, k in enumerate(G.nonces('msb', cid2, 64, 12, 'c07-w-%d' % seed))]
     batch = ws[:4] + hs[:1] + ws[4:8] + hs[1:] + ws[8:]
+    if weak == 'key':
+      # an issuer whose *key* is weak (small private key), random nonces, in front
+      ws = [G.signature(cid2, 0x12345678, k, 'c07-wk-%d' % i)
+            for i, k in enumerate(G.nonces('random', cid2, 0, 2, 'c07-wk-%d' % seed))]
+      batch = ws[:1] + hs[:1] + ws[1:] + hs[1:]
   st, ret = guarded(w.paranoid.CheckAllECDSASigs, batch)
   if st == 'exc':
     return ['CheckAllECDSASigs raised %s' % ret]
@@ -205,11 +210,11 @@ def sigs(cid, seeds, counts):
       r.violation(b, {'fn': 'sigs', 'args': {'cid': cid, 'seed': sd, 'count': 1, 'weak': False}})
     r.ev('ecdsa/alone', False)
   for c in counts:
-    for weak in (False, True):
+    for weak in ((False, True, 'key') if c <= 8 else (False, True)):
       for b in case_sigs(cid, seeds[0], c, weak):
         r.violation(b, {'fn': 'sigs', 'args': {'cid': cid, 'seed': seeds[0], 'count': c,
                                                'weak': weak}})
-      r.ev('ecdsa/batch%d%s' % (c, '+weak' if weak else ''), True)
+      r.ev('ecdsa/batch%d%s' % (c, ('+weak-%s' % ('key' if weak == 'key' else 'nonces')) if weak else ''), True)
   r.sample({'curve': G.NAMES[cid], 'seeds': [seeds[0], seeds[-1]], 'batch_sizes': counts})
   return r
 
@@ -259,5 +264,5 @@ def plan(tier, seed):
                     {'cid': cid, 'seeds': list(range(s0, s0 + (8 if thorough else 3)))
                      if counts[0] == 2 else [s0 + 300], 'counts': counts},
                     bound='signatures with DRBG nonces: alone, batches of 2/8/24 (50 thorough) of '
-                    'one issuer, with a biased issuer interleaved', weight=5e9))
+                    'one issuer, with a biased issuer interleaved, with a weak-key issuer in front', weight=5e9))
   return T
